@@ -42,6 +42,7 @@ def run(ctx):
         "assumed, not verified: the event vocabulary of the Solidity contracts (contractCreated on creation, clonefactoryContractPurchased on every purchase, contractDeleteUpdated on the delete flag; a close raises no clone-factory event), which are not in this repository; that a buyer / validator controller returns when its purchase has ended (C10's controller model)",
     ]
     ctx.assumptions += ["events are handled one at a time with quiescence in between (the manager's select loop)", "eth_call answers are instantaneous (a purchase event is never handled while the answer for an older state is in flight)"]
+    L.regen(ctx, ["C16"])
     L.prove(ctx)
     if not L.build_driver(ctx):
         return
